@@ -201,3 +201,163 @@ Definition w_read_sem (v : val) : val :=
   | VS s => match read_elem s with Some (r, rest) => VL [sem_of_relem r; VS rest] | None => VE E_ValueError end
   | _ => bad
   end.
+
+(* ======================================================================================
+   Stage B reader: the same tag language plus
+     * character data of leaf elements (<bodies>, <languages>): everything up to the next '<',
+       references decoded; white-space-only character data is kept when it is the whole content
+       of a childless element and dropped between element children (what libxml2 does under
+       XML_PARSE_NOBLANKS / lxml remove_blank_text=True);
+     * comments before and after the root element ([read_doc]); comment content is taken
+       verbatim (XML does not decode references in comments), "--" inside a comment is an error.
+   Mixed content (character data next to element children) and comments inside elements are
+   outside the language and rejected (None).  [read_nodes]/[read_elem] above are unchanged. *)
+Fixpoint take_text (s : str) : str * str :=                 (* up to the next '<' *)
+  match s with
+  | c :: r => if c =? LT then ([], s) else let '(t, rest) := take_text r in (c :: t, rest)
+  | [] => ([], [])
+  end.
+Definition all_wsb (s : str) : bool := forallb is_xml_ws s.
+(* the text of an element being closed: [leaf] = it has no element children, [raw] = the
+   character data in front of the end tag *)
+Definition close_text (leaf : bool) (raw : str) : option (option str) :=
+  if leaf then
+    if is_nil raw then Some None
+    else match unescape raw with Some t => Some (Some t) | None => None end
+  else if all_wsb raw then Some None else None.
+
+Fixpoint read_nodes_t (fuel : nat) (s : str) (stack : list frame) : option (relem * str) :=
+  match fuel with
+  | O => None
+  | S f =>
+      let '(raw, s1) := take_text s in
+      match s1 with
+      | _ :: c' :: r' =>                                     (* s1 starts with '<' *)
+          if c' =? 47 then                                   (* end tag *)
+            let '(n, rest) := take_name r' in
+            match rest, stack with
+            | g :: rest', (t, a, ch) :: st =>
+                if (g =? GT) && str_eqb n t then
+                  match close_text (is_nil ch) raw with
+                  | Some tx =>
+                      let el := RElem t a (is_nil ch && is_none tx) tx (rev ch) None in
+                      match st with
+                      | [] => Some (el, rest')
+                      | _ => read_nodes_t f rest' (push_child el st)
+                      end
+                  | None => None
+                  end
+                else None
+            | _, _ => None
+            end
+          else if negb (all_wsb raw) then None               (* character data before a child: mixed content *)
+          else                                               (* start / empty tag *)
+            let '(n, rest) := take_name (c' :: r') in
+            match n with
+            | [] => None
+            | _ =>
+                match read_attrs (S (List.length rest)) rest with
+                | Some (ats, true, rest') =>
+                    let el := RElem n ats false None [] None in
+                    match stack with
+                    | [] => Some (el, rest')
+                    | _ => read_nodes_t f rest' (push_child el stack)
+                    end
+                | Some (ats, false, rest') => read_nodes_t f rest' ((n, ats, []) :: stack)
+                | None => None
+                end
+            end
+      | _ => None
+      end
+  end.
+Definition read_elem_t (s : str) : option (relem * str) := read_nodes_t (S (List.length s)) s [].
+
+(* the content of a comment, after "<!--": up to the first "--", which must be followed by '>' *)
+Fixpoint take_comment (s : str) : option (str * str) :=
+  match s with
+  | [] => None
+  | c :: r =>
+      if c =? 45 then
+        match r with
+        | c1 :: r1 =>
+            if c1 =? 45 then match r1 with c2 :: r2 => if c2 =? GT then Some ([], r2) else None | [] => None end
+            else match take_comment r with Some (t, rest) => Some (c :: t, rest) | None => None end
+        | [] => None
+        end
+      else match take_comment r with Some (t, rest) => Some (c :: t, rest) | None => None end
+  end.
+Definition COMMENT_OPEN : str := [LT; 33; 45; 45].
+(* a run of comments separated by white space; returns their contents and the rest (leading
+   white space removed) *)
+Fixpoint read_comments (fuel : nat) (s : str) : option (list str * str) :=
+  match fuel with
+  | O => None
+  | S f =>
+      let s' := skip_ws s in
+      if starts_with COMMENT_OPEN s' then
+        match take_comment (skipn 4 s') with
+        | Some (t, rest) =>
+            match read_comments f rest with Some (cs, rest') => Some (t :: cs, rest') | None => None end
+        | None => None
+        end
+      else Some ([], s')
+  end.
+(* a document as [lay_doc] writes it (without the XML declaration): comments, the root element,
+   comments, white space up to the end of the input *)
+Definition read_doc (s : str) : option (list str * relem * list str) :=
+  match read_comments (S (List.length s)) s with
+  | Some (b, s1) =>
+      match read_elem_t s1 with
+      | Some (r, s2) =>
+          match read_comments (S (List.length s2)) s2 with
+          | Some (a, []) => Some (b, r, a)
+          | _ => None
+          end
+      | None => None
+      end
+  | None => None
+  end.
+(* … and with the declaration that exs.write puts in front *)
+Definition read_file (s : str) : option (list str * relem * list str) :=
+  if starts_with declaration s then read_doc (skipn (List.length declaration) s) else None.
+
+(* what [read_doc] returns for a written tree (the parser's view of it): attribute values decoded;
+   text kept only where the writer writes it and the parser keeps it — non-empty text of a
+   childless element; tails dropped; [expanded] = written as <t></t> *)
+Definition kept_text (leaf : bool) (tx : option str) : option str :=
+  if leaf then match tx with Some (c :: s) => Some (c :: s) | _ => None end else None.
+Fixpoint norm_tree (r : relem) : relem :=
+  let 'RElem t a e tx ch _ := r in
+  let tx' := kept_text (is_nil ch) tx in
+  RElem t (map (fun nv => (fst nv, dec_val (snd nv))) a)
+        (is_nil ch && is_none tx' && negb (is_none tx && negb e)) tx' (map norm_tree ch) None.
+(* restrictions under which the writer's comment handling is faithful: no '>' (it is written as
+   "&gt;", which XML does not decode inside a comment), no newline (the lines are joined without
+   a separator), no "--" and no trailing '-' (not well-formed XML) *)
+Fixpoint no_double_dash (s : str) : bool :=
+  match s with
+  | [] => true
+  | c :: r => if c =? 45 then match r with [] => false | c1 :: _ => negb (c1 =? 45) && no_double_dash r end
+              else no_double_dash r
+  end.
+Definition comment_text_ok (s : str) : bool :=
+  forallb (fun c => negb (c =? GT) && negb (c =? 10)) s && no_double_dash s.
+
+(* val wrappers for the stage B reader: text included *)
+Definition opt_str_val (o : option str) : val := match o with Some s => VS s | None => VNone end.
+Fixpoint sem_of_relem_t (r : relem) : val :=
+  let 'RElem t a ex tx ch tl := r in
+  VL [VS t;
+      pairs_val (filter (fun nv => starts_with XMLNS_PREFIX (fst nv)) a);
+      pairs_val (filter (fun nv => negb (starts_with XMLNS_PREFIX (fst nv))) a);
+      opt_str_val tx;
+      VL ((fix go (l : list relem) : list val := match l with [] => [] | c :: r => sem_of_relem_t c :: go r end) ch)].
+(* input: the payload as written (code points); output: [comments before; root; comments after] *)
+Definition w_read_doc (v : val) : val :=
+  match v with
+  | VS s => match read_doc s with
+            | Some (b, r, a) => VL [of_strs b; sem_of_relem_t r; of_strs a]
+            | None => VE E_ValueError
+            end
+  | _ => bad
+  end.
